@@ -139,21 +139,22 @@ Lemma esc_go_body s rest :
 Proof.
   induction s as [|y s IH].
   - cbn. reflexivity.
-  - unfold escape_body in *. cbn [flat_map]. rewrite <- app_assoc. unfold esc_char.
+  - unfold escape_body in *. cbn [flat_map]. rewrite <- app_assoc.
+    remember (flat_map esc_char s) as F eqn:EF. unfold esc_char.
     destruct (y =? c_bs) eqn:E1.
-    + change ([c_bs; c_bs] ++ flat_map esc_char s ++ c_dq :: rest)
-        with (c_bs :: c_bs :: (flat_map esc_char s ++ c_dq :: rest)).
+    + change ([c_bs; c_bs] ++ F ++ c_dq :: rest)
+        with (c_bs :: c_bs :: (F ++ c_dq :: rest)).
       rewrite esc_go_ctrl, IH. reflexivity.
     + destruct (y =? c_dq) eqn:E2.
-      * change ([c_bs; c_dq] ++ flat_map esc_char s ++ c_dq :: rest)
-          with (c_bs :: c_dq :: (flat_map esc_char s ++ c_dq :: rest)).
+      * change ([c_bs; c_dq] ++ F ++ c_dq :: rest)
+          with (c_bs :: c_dq :: (F ++ c_dq :: rest)).
         rewrite esc_go_ctrl, IH. reflexivity.
       * destruct (y =? c_nl) eqn:E3.
-        -- change ([c_bs; c_bs; c_n] ++ flat_map esc_char s ++ c_dq :: rest)
-             with (c_bs :: c_bs :: c_n :: (flat_map esc_char s ++ c_dq :: rest)).
+        -- change ([c_bs; c_bs; c_n] ++ F ++ c_dq :: rest)
+             with (c_bs :: c_bs :: c_n :: (F ++ c_dq :: rest)).
            rewrite esc_go_ctrl, esc_go_normal by reflexivity. rewrite IH. reflexivity.
-        -- change ([y] ++ flat_map esc_char s ++ c_dq :: rest)
-             with (y :: (flat_map esc_char s ++ c_dq :: rest)).
+        -- change ([y] ++ F ++ c_dq :: rest)
+             with (y :: (F ++ c_dq :: rest)).
            rewrite esc_go_normal by assumption. rewrite IH. reflexivity.
 Qed.
 
@@ -182,13 +183,14 @@ Lemma unescape_body s : has c_nl s = false -> unescape (escape_body s) = s.
 Proof.
   induction s as [|y s IH]; intros H; auto.
   rewrite has_cons in H. apply orb_false_iff in H as [A B].
-  unfold escape_body in *. cbn [flat_map]. unfold esc_char.
+  unfold escape_body in *. cbn [flat_map]. specialize (IH B).
+  remember (flat_map esc_char s) as F eqn:EF. unfold esc_char.
   destruct (y =? c_bs) eqn:E1.
-  - apply N.eqb_eq in E1. subst y. cbn [app]. cbn [unescape]. cbn [N.eqb c_bs c_n c_dq Pos.eqb].
-    rewrite IH; auto.
+  - apply N.eqb_eq in E1. subst y.
+    change (unescape ([c_bs; c_bs] ++ F)) with (c_bs :: unescape F). rewrite IH; auto.
   - destruct (y =? c_dq) eqn:E2.
-    + apply N.eqb_eq in E2. subst y. cbn [app]. cbn [unescape]. cbn [N.eqb c_bs c_n c_dq Pos.eqb].
-      rewrite IH; auto.
+    + apply N.eqb_eq in E2. subst y.
+      change (unescape ([c_bs; c_dq] ++ F)) with (c_dq :: unescape F). rewrite IH; auto.
     + rewrite A. cbn [app]. cbn [unescape]. rewrite E1. rewrite IH; auto.
 Qed.
 
@@ -257,3 +259,156 @@ Proof.
   intros H. unfold parse_field_delimiter. destruct (str_eqb fd [c_sp]); auto.
   destruct fd; [congruence | reflexivity].
 Qed.
+
+(* ------------------------------------------------------------------ one string, one entry *)
+(* what kv_safe + nonempty_strings say about one string; `heads` = the first characters of the delimiters
+   that must not occur in it when it is left unquoted *)
+Definition str_ok (heads : list N) (s : str) : Prop :=
+  s <> [] /\ has c_nl s = false /\
+  (unq s = true -> has c_bs s = false /\ head_is c_sq s = false /\ forall h, In h heads -> has h s = false).
+
+Lemma needs_quoting_unq s : needs_quoting s = false -> unq s = true.
+Proof. intros H. unfold unq. rewrite H. reflexivity. Qed.
+
+Lemma c_sp_ws : is_ws c_sp = true. Proof. reflexivity. Qed.
+
+Lemma no_ws_not_sptab x : is_ws x = false -> is_sptab x = false /\ x <> c_sp.
+Proof.
+  intros H. split.
+  - destruct (is_sptab x) eqn:E; auto. apply is_sptab_ws in E. congruence.
+  - intros ->. rewrite c_sp_ws in H. discriminate.
+Qed.
+
+Lemma enc_head heads s :
+  str_ok heads s -> exists x t, encode_string s = x :: t /\ is_sptab x = false /\ x <> c_sp.
+Proof.
+  intros (Hne & _ & Hu). unfold encode_string. destruct (needs_quoting s) eqn:Q.
+  - exists c_dq, (escape_body s ++ [c_dq]). repeat split; auto. discriminate.
+  - apply needs_quoting_unq in Q. destruct (Hu Q) as (B & _ & _).
+    pose proof (encode_string_unq s Q B) as E. unfold encode_string in E.
+    unfold unq in Q. apply negb_true_iff in Q. rewrite Q in E. rewrite E.
+    destruct s as [|x t]; [congruence|]. exists x, t.
+    assert (W : is_ws x = false).
+    { assert (U : unq (x :: t) = true) by (unfold unq; rewrite Q; reflexivity).
+      apply (unq_no_ws _ U). left; auto. }
+    destruct (no_ws_not_sptab x W). repeat split; auto.
+Qed.
+
+Section RoundTrip.
+  Variables (kc : N) (kvd' : str) (fc : N) (fd' : str).
+  Let kvd : str := kc :: kvd'.
+  Let fd : str := fc :: fd'.
+  Hypothesis Hkc : is_sptab kc = false.
+  Hypothesis Hfd : fd = [c_sp] \/ (str_eqb fd [c_sp] = false /\ fc <> c_sp).
+
+  Lemma kc_not_sp : kc <> c_sp.
+  Proof. intros ->. discriminate Hkc. Qed.
+
+  Lemma kvd_term_ok rest : term_ok kvd (kvd ++ rest).
+  Proof.
+    left. apply pfd_some. right. split.
+    - unfold kvd. cbn. pose proof kc_not_sp as H. apply N.eqb_neq in H. rewrite H. reflexivity.
+    - exists kc, kvd'. split; auto. apply kc_not_sp.
+  Qed.
+
+  Lemma fd_shape : fd = [c_sp] \/ (str_eqb fd [c_sp] = false /\ exists f fd0, fd = f :: fd0 /\ f <> c_sp).
+  Proof. destruct Hfd as [H|[H1 H2]]; [left; auto | right; split; auto; exists fc, fd'; auto]. Qed.
+
+  Lemma fd_term_ok tail : tail = [] \/ (exists more, tail = fd ++ more) -> term_ok fd tail.
+  Proof.
+    intros [->|[more ->]].
+    - right. reflexivity.
+    - left. apply pfd_some. apply fd_shape.
+  Qed.
+
+  Lemma quoted_form s rest :
+    (c_dq :: escape_body s ++ [c_dq]) ++ rest = c_dq :: escape_body s ++ c_dq :: rest.
+  Proof. cbn [app]. rewrite <- app_assoc. reflexivity. Qed.
+
+  (* ---- key *)
+  Lemma parse_key_enc sk k rest :
+    str_ok [kc; fc] k ->
+    parse_key kvd fd sk (encode_string k ++ kvd ++ rest) = Some (k, kvd ++ rest).
+  Proof.
+    intros (Hne & Hnl & Hu). unfold encode_string. destruct (needs_quoting k) eqn:Q.
+    - rewrite quoted_form. unfold parse_key.
+      rewrite !(parse_delimited_head_ne c_sq) by discriminate.
+      rewrite (parse_delimited_quoted kvd k (kvd ++ rest) Hne Hnl (kvd_term_ok rest)).
+      destruct sk; cbn [first_some]; destruct k; [congruence | reflexivity | congruence | reflexivity].
+    - apply needs_quoting_unq in Q. destruct (Hu Q) as (B & S & Hh).
+      pose proof (encode_string_unq k Q B) as E. unfold encode_string in E.
+      pose proof Q as Q'. unfold unq in Q'. apply negb_true_iff in Q'. rewrite Q' in E. rewrite E.
+      destruct k as [|x t]; [congruence|].
+      assert (Hx : is_ws x = false /\ x <> c_dq /\ x <> c_eq) by (apply (proj1 (unq_spec _) Q); left; auto).
+      destruct Hx as (_ & Hdq & _).
+      assert (Hsq : x <> c_sq) by (cbn in S; apply N.eqb_neq; exact S).
+      assert (PU : parse_undelimited kvd ((x :: t) ++ kvd ++ rest) = (x :: t, kvd ++ rest)).
+      { unfold parse_undelimited, kvd. rewrite take_until_nohead by (apply Hh; left; auto).
+        rewrite trim_no_ws by (apply unq_no_ws; auto). reflexivity. }
+      unfold parse_key. cbn [app].
+      rewrite !(parse_delimited_head_ne c_sq) by auto.
+      rewrite !(parse_delimited_head_ne c_dq) by auto.
+      change (x :: t ++ kvd ++ rest) with ((x :: t) ++ kvd ++ rest). rewrite PU.
+      destruct sk; cbn [first_some is_nil negb andb]; auto.
+      unfold fd. rewrite contains_nohead by (apply Hh; right; left; auto). reflexivity.
+  Qed.
+
+  (* ---- value *)
+  Lemma parse_value_enc v tail :
+    str_ok [fc] v -> (tail = [] \/ exists more, tail = fd ++ more) ->
+    parse_value fd (encode_string v ++ tail) = (v, tail).
+  Proof.
+    intros (Hne & Hnl & Hu) Ht. unfold encode_string. destruct (needs_quoting v) eqn:Q.
+    - rewrite quoted_form. unfold parse_value.
+      rewrite (parse_delimited_head_ne c_sq) by discriminate.
+      rewrite (parse_delimited_quoted fd v tail Hne Hnl (fd_term_ok tail Ht)). reflexivity.
+    - apply needs_quoting_unq in Q. destruct (Hu Q) as (B & S & Hh).
+      pose proof (encode_string_unq v Q B) as E. unfold encode_string in E.
+      pose proof Q as Q'. unfold unq in Q'. apply negb_true_iff in Q'. rewrite Q' in E. rewrite E.
+      destruct v as [|x t]; [congruence|].
+      assert (Hx : is_ws x = false /\ x <> c_dq /\ x <> c_eq) by (apply (proj1 (unq_spec _) Q); left; auto).
+      destruct Hx as (_ & Hdq & _).
+      assert (Hsq : x <> c_sq) by (cbn in S; apply N.eqb_neq; exact S).
+      unfold parse_value. cbn [app].
+      rewrite (parse_delimited_head_ne c_sq) by auto.
+      rewrite (parse_delimited_head_ne c_dq) by auto.
+      change (x :: t ++ tail) with ((x :: t) ++ tail).
+      unfold parse_undelimited. destruct Ht as [->|[more ->]].
+      + rewrite app_nil_r. unfold fd. rewrite take_until_none by (apply Hh; left; auto).
+        rewrite trim_no_ws by (apply unq_no_ws; auto). reflexivity.
+      + unfold fd. rewrite take_until_nohead by (apply Hh; left; auto).
+        rewrite trim_no_ws by (apply unq_no_ws; auto). reflexivity.
+  Qed.
+
+  (* ---- separator *)
+  Lemma parse_sep_enc ws x t :
+    is_sptab x = false -> parse_sep kvd ws (kvd ++ x :: t) = Some (x :: t).
+  Proof.
+    intros Hx. unfold parse_sep. destruct ws.
+    - apply strip_prefix_app.
+    - assert (E : space0 (kvd ++ x :: t) = kvd ++ x :: t)
+        by exact (space0_head kc (kvd' ++ x :: t) Hkc).
+      rewrite E, strip_prefix_app. rewrite space0_head by exact Hx. reflexivity.
+  Qed.
+
+  (* ---- one entry *)
+  Lemma parse_kv_enc ws sk k v tail :
+    str_ok [kc; fc] k -> str_ok [fc] v -> (tail = [] \/ exists more, tail = fd ++ more) ->
+    parse_kv kvd fd ws sk (encode_field kvd k v ++ tail) = Some ((k, PStr v), tail).
+  Proof.
+    intros Hk Hv Ht. unfold encode_field. rewrite <- !app_assoc.
+    destruct (enc_head _ _ Hk) as (x & t & Ek & Hx & _).
+    destruct (enc_head _ _ Hv) as (y & u & Ev & Hy & _).
+    unfold parse_kv.
+    rewrite Ek. cbn [app]. rewrite space0_head by exact Hx.
+    change (x :: t ++ kvd ++ encode_string v ++ tail) with ((x :: t) ++ kvd ++ encode_string v ++ tail).
+    rewrite <- Ek. rewrite parse_key_enc by exact Hk.
+    rewrite Ev. cbn [app]. change (kvd ++ y :: u ++ tail) with (kvd ++ y :: (u ++ tail)).
+    rewrite parse_sep_enc by exact Hy.
+    assert (L : Nat.eqb (length (y :: u ++ tail)) (length (kvd ++ y :: u ++ tail)) = false).
+    { apply Nat.eqb_neq. unfold kvd. rewrite app_length. cbn [length]. lia. }
+    rewrite L.
+    change (y :: u ++ tail) with ((y :: u) ++ tail). rewrite <- Ev.
+    rewrite parse_value_enc by assumption. reflexivity.
+  Qed.
+End RoundTrip.
